@@ -344,7 +344,7 @@ func init() {
 				}
 				nUse++
 				for _, g := range gs {
-					if ok, path := c.ge().guardedLocal(f, call, g, 1); !ok {
+					if ok, path := c.ge().guardedLocal(f, call, g, 2); !ok {
 						c.Fail(fk+" :: acts on the message <= "+g.Name, w.ipos(call), "call "+s+" is reachable without: "+g.Name+" via "+pathStr(w, path))
 					}
 				}
@@ -505,7 +505,7 @@ func init() {
 						continue
 					}
 					g := guardCmp(fld.Name()+" not negative", `m\.`+fld.Name(), ">=", "0")
-					c.Check(c.ge().ensures(f, g, 0), fk+" ensures "+g.Name, w.pos(f.Pos()), "checked", impl.name+" is accepted with a negative "+fld.Name())
+					c.Check(c.ge().ensures(f, g, 2), fk+" ensures "+g.Name, w.pos(f.Pos()), "checked", impl.name+" is accepted with a negative "+fld.Name())
 					continue
 				}
 				if n := derefNamed(ft); n != nil && n.Obj().Name() == "BitArray" && !hasValidateBasic(ft) {
@@ -514,7 +514,7 @@ func init() {
 				}
 				if hasValidateBasic(ft) {
 					g := guardRe(fld.Name()+" valid", `^nil\(m\.`+fld.Name()+`\.ValidateBasic\(\)\)$`)
-					c.Check(c.ge().ensures(f, g, 0), fk+" ensures "+g.Name, w.pos(f.Pos()), "nested ValidateBasic called and its error propagated", impl.name+" is accepted without validating its "+fld.Name()+" ("+typeStr(ft)+")")
+					c.Check(c.ge().ensures(f, g, 2), fk+" ensures "+g.Name, w.pos(f.Pos()), "nested ValidateBasic called and its error propagated", impl.name+" is accepted without validating its "+fld.Name()+" ("+typeStr(ft)+")")
 				}
 			}
 		}
@@ -525,8 +525,8 @@ func init() {
 		if f := c.fn("libs/bits", "BitArray.ValidateBasic"); f != nil {
 			fk := funcKey(f)
 			isNil := guardRe("nil", `^nil\(bA\)$`)
-			c.Check(c.ge().ensures(f, guardAny("element count equals what the bit count needs (or the array is nil)", guardCmp("eq", `len\(bA\.Elems\)`, "==", `\(\(bA\.Bits \+ 63\) / 64\)`), isNil), 0), fk+" ensures len(Elems) == (Bits+63)/64", w.pos(f.Pos()), "checked", "a bit array with fewer words than its bit count is accepted")
-			c.Check(c.ge().ensures(f, guardAny("bit count not negative (or the array is nil)", guardCmp("nn", `bA\.Bits`, ">=", "0"), isNil), 0), fk+" ensures Bits >= 0", w.pos(f.Pos()), "checked", "a negative bit count is accepted")
+			c.Check(c.ge().ensures(f, guardAny("element count equals what the bit count needs (or the array is nil)", guardCmp("eq", `len\(bA\.Elems\)`, "==", `\(\(bA\.Bits \+ 63\) / 64\)`), isNil), 2), fk+" ensures len(Elems) == (Bits+63)/64", w.pos(f.Pos()), "checked", "a bit array with fewer words than its bit count is accepted")
+			c.Check(c.ge().ensures(f, guardAny("bit count not negative (or the array is nil)", guardCmp("nn", `bA\.Bits`, ">=", "0"), isNil), 2), fk+" ensures Bits >= 0", w.pos(f.Pos()), "checked", "a negative bit count is accepted")
 		}
 	})
 
